@@ -92,7 +92,7 @@ theorem code_cdf (x μ l τ : ℝ) : |esl_wei_cdf x μ l τ - weiCdf μ l τ x| 
   have hzpos : 0 < z := exp_pos _
   split_ifs with h1 h2
   · norm_num
-  · have hz1 : z < 5e-9 := by norm_num at h2 ⊢; exact h2
+  · have hz1 : z ≤ 5e-9 := by norm_num at h2 ⊢; first | exact h2 | exact le_of_lt h2
     have := one_sub_exp_neg_approx (t := z) (by rw [abs_of_pos hzpos]; linarith)
     have hsq : z ^ 2 ≤ 2.5e-17 := by nlinarith
     exact le_trans this hsq
@@ -117,11 +117,11 @@ theorem code_logcdf {x μ : ℝ} (l τ : ℝ) (hx : μ < x) : |esl_wei_logcdf x 
   have hzpos : 0 < z := exp_pos _
   have hlogz : log z = τ * log (l * (x - μ)) := by rw [hz, log_exp]
   split_ifs with h2 h3
-  · have hz1 : z < 5e-9 := by norm_num at h2 ⊢; exact h2
+  · have hz1 : z ≤ 5e-9 := by norm_num at h2 ⊢; first | exact h2 | exact le_of_lt h2
     have := log_one_sub_exp_neg_approx hzpos (by linarith)
     rw [hlogz] at this; linarith
   · have hc0 : 0 < exp (-z) := exp_pos _
-    have hc1 : exp (-z) < 5e-9 := by rw [abs_of_pos hc0] at h3; norm_num at h3 ⊢; exact h3
+    have hc1 : exp (-z) ≤ 5e-9 := by rw [abs_of_pos hc0] at h3; norm_num at h3 ⊢; first | exact h3 | exact le_of_lt h3
     have := log_one_sub_approx hc0.le (by linarith)
     have e : -exp (-z) - log (1 - exp (-z)) = -(log (1 - exp (-z)) + exp (-z)) := by ring
     rw [e, abs_neg]
